@@ -6,6 +6,21 @@ use crate::{BitFont, Buffer, CallbackAction, Caret, EngineResult, ParserError, S
 
 use super::{parse_next_number, Parser};
 
+/// A macro definition is limited to this many bytes: the repeat count of a hex group is part of the input.
+const MAX_MACRO_LEN: usize = 0x1_0000;
+
+/// Appends `rec` to `dst` `count` times, as far as the macro size limit allows.
+fn push_repeated(dst: &mut String, rec: &str, count: i32) {
+    if rec.is_empty() {
+        return;
+    }
+    let room = MAX_MACRO_LEN.saturating_sub(dst.len());
+    let count = (count.max(0) as usize).min(room / rec.len());
+    for _ in 0..count {
+        dst.push_str(rec);
+    }
+}
+
 #[derive(Debug, Clone, Copy)]
 enum HexMacroState {
     FirstHex,
@@ -115,7 +130,7 @@ impl Parser {
                 HexMacroState::FirstHex => {
                     if ch == ';' && read_repeat {
                         read_repeat = false;
-                        (0..repeat_number).for_each(|_| marco_rec.push_str(&repeat_rec));
+                        push_repeated(&mut marco_rec, &repeat_rec, repeat_number);
                         continue;
                     }
                     if ch == '!' {
@@ -157,7 +172,7 @@ impl Parser {
             }
         }
         if read_repeat {
-            (0..repeat_number).for_each(|_| marco_rec.push_str(&repeat_rec));
+            push_repeated(&mut marco_rec, &repeat_rec, repeat_number);
         }
 
         self.macros.insert(id, marco_rec);
